@@ -83,7 +83,7 @@ def onestep(a, finv, x, y, z):
 
 
 def tangential_offset(a, finv, x, y, z):
-    """R of Props/C05.roundtrip_error_partial: (|z|·cc − p·s1)/D + e²·a·s1·cc/(D·W) with (s1, cc) of the one-step scheme;
+    """R of Props/C05.roundtrip_error_closed_form: (|z|·cc − p·s1)/D + e²·a·s1·cc/(D·W) with (s1, cc) of the one-step scheme;
     None in the pole branch"""
     f, b, e2 = params(a, finv)
     e4t = e2 * e2 * mp.mpf("1.5")
